@@ -33,3 +33,46 @@ pub assume_specification<T: Clone>[ <[T]>::to_vec ](s: &[T]) -> (v: Vec<T>)
     ensures
         v@ == s@,
 ;
+
+/// Verified replacement for `v[from..].reverse()` (std slice reverse on the tail of a Vec).
+/// ASSUMPTION: std's `<[T]>::reverse` reverses the slice in place (this function's spec).
+pub fn vec_reverse_from(v: &mut Vec<u8>, from: usize)
+    requires
+        from <= old(v)@.len(),
+    ensures
+        final(v)@.len() == old(v)@.len(),
+        final(v)@ == old(v)@.subrange(0, from as int) + old(v)@.subrange(from as int, old(v)@.len() as int).reverse(),
+{
+    let n = v.len();
+    let ghost orig = v@;
+    let mut lo = from;
+    let mut hi = n;
+    while hi - lo >= 2
+        invariant
+            v@.len() == n,
+            orig.len() == n,
+            from <= lo <= hi <= n,
+            lo - from == n - hi,
+            forall|i: int| 0 <= i < from ==> v@[i] == orig[i],
+            forall|i: int| lo <= i < hi ==> v@[i] == orig[i],
+            forall|i: int| from <= i < lo ==> v@[i] == orig[from + (n - 1 - i)],
+            forall|i: int| hi <= i < n ==> v@[i] == orig[from + (n - 1 - i)],
+        decreases hi - lo,
+    {
+        let a = v[lo];
+        let b = v[hi - 1];
+        v.set(lo, b);
+        v.set(hi - 1, a);
+        lo += 1;
+        hi -= 1;
+    }
+    proof {
+        let tail = orig.subrange(from as int, n as int);
+        assert forall|i: int| 0 <= i < n implies v@[i] == (orig.subrange(0, from as int) + tail.reverse())[i] by {
+            if i >= from {
+                assert(tail.reverse()[i - from] == tail[tail.len() - 1 - (i - from)]);
+            }
+        }
+        assert(v@ =~= orig.subrange(0, from as int) + tail.reverse());
+    }
+}
